@@ -2,12 +2,14 @@ CONSTANT Mode = "cols"
 CONSTANT MaxSteps = 3
 CONSTANT MaxZero = 2
 CONSTANT RowCounts = {2, 3, 4}
+CONSTANT PadCounts = {4096, 8192, 16384}
 CONSTANT NGen = 6
 SPECIFICATION Spec
 INVARIANT TypeOK
 INVARIANT Consistent
 INVARIANT GramInvariant
 INVARIANT LawC08
+INVARIANT PadLaw
 INVARIANT ClassInvariant
 INVARIANT Export
 CHECK_DEADLOCK FALSE
